@@ -113,7 +113,7 @@ func c08R1(p *core.Program, r *core.Report, pl *pipeline) {
 	isPrev := func(e ast.Expr) bool {
 		e, _ = core.Resolve(pinfo, pred.Body, e)
 		fld := core.FieldOf(pinfo, e)
-		return fld != nil && fld.Name() == "sumFile" && core.NamedTypeName(fld.Type()) == core.G("pkg/sumfile.File")
+		return isRole(p, fld, "ctx.sumFile")
 	}
 	isCur := func(e ast.Expr) bool {
 		e, _ = core.Resolve(pinfo, pred.Body, e)
@@ -319,7 +319,7 @@ func c08R3(p *core.Program, r *core.Report, pl *pipeline) {
 	for _, c := range core.CallsTo(einfo, e.Body, true, core.G("pkg/sumfile.Load")) {
 		g := graph(e)
 		if as, isAs := g.PointOf(c).Node().(*ast.AssignStmt); isAs {
-			if fld := core.FieldOf(einfo, as.Lhs[0]); fld != nil && fld.Name() == "sumFile" {
+			if fld := core.FieldOf(einfo, as.Lhs[0]); isRole(p, fld, "ctx.sumFile") {
 				stored = true
 			}
 		}
